@@ -1,7 +1,5 @@
 from typing import TYPE_CHECKING, TypedDict
 
-from prosemirror.utils import text_length
-
 from . import node as pm_node
 
 if TYPE_CHECKING:
@@ -11,6 +9,12 @@ if TYPE_CHECKING:
 class Diff(TypedDict):
     a: int
     b: int
+
+
+def _units(text: str) -> list[bytes]:
+    # positions count UTF-16 code units, so text has to be compared unit by unit
+    data = text.encode("utf-16-le", "surrogatepass")
+    return [data[i : i + 2] for i in range(0, len(data), 2)]
 
 
 def find_diff_start(a: "Fragment", b: "Fragment", pos: int) -> int | None:
@@ -29,24 +33,15 @@ def find_diff_start(a: "Fragment", b: "Fragment", pos: int) -> int | None:
             assert isinstance(child_a, pm_node.TextNode)
             assert isinstance(child_b, pm_node.TextNode)
             if child_a.text != child_b.text:
-                if child_b.text.startswith(child_a.text):
-                    return pos + text_length(child_a.text)
-                if child_a.text.startswith(child_b.text):
-                    return pos + text_length(child_b.text)
-                next_index = next(
-                    (
-                        index_a
-                        for ((index_a, char_a), (_, char_b)) in zip(
-                            enumerate(child_a.text),
-                            enumerate(child_b.text),
-                            strict=True,
-                        )
-                        if char_a != char_b
-                    ),
-                    None,
-                )
-                if next_index is not None:
-                    return pos + next_index
+                units_a, units_b = _units(child_a.text), _units(child_b.text)
+                same = 0
+                while (
+                    same < len(units_a)
+                    and same < len(units_b)
+                    and units_a[same] == units_b[same]
+                ):
+                    same += 1
+                return pos + same
         if child_a.content.size or child_b.content.size:
             inner = find_diff_start(child_a.content, child_b.content, pos + 1)
             if inner:
@@ -79,15 +74,9 @@ def find_diff_end(a: "Fragment", b: "Fragment", pos_a: int, pos_b: int) -> Diff 
             assert isinstance(child_a, pm_node.TextNode)
             assert isinstance(child_b, pm_node.TextNode)
             if child_a.text != child_b.text:
-                same, min_size = (
-                    0,
-                    min(text_length(child_a.text), text_length(child_b.text)),
-                )
-                while (
-                    same < min_size
-                    and child_a.text[text_length(child_a.text) - same - 1]
-                    == child_b.text[text_length(child_b.text) - same - 1]
-                ):
+                units_a, units_b = _units(child_a.text), _units(child_b.text)
+                same, min_size = 0, min(len(units_a), len(units_b))
+                while same < min_size and units_a[-same - 1] == units_b[-same - 1]:
                     same += 1
                     pos_a -= 1
                     pos_b -= 1
